@@ -71,27 +71,35 @@ func NewYAMLAccountManager(accountDir string) (*YAMLAccountManager, error) {
 	return &accountMgr, nil
 }
 
+// writeFileAtomic writes data to a temporary file next to name and renames it into place, so that a crash leaves
+// either the old or the new content behind and never a truncated or empty file.  The temporary name does not match the
+// "*.yaml" pattern the accounts are loaded with.
+func writeFileAtomic(name string, data []byte) error {
+	tempName := name + ".tmp"
+
+	if err := os.WriteFile(tempName, data, 0644); err != nil {
+		return err
+	}
+
+	return os.Rename(tempName, name)
+}
+
 func (am *YAMLAccountManager) Create(account hotline.Account) error {
 	am.mu.Lock()
 	defer am.mu.Unlock()
 
-	// Create account file, returning an error if one already exists.
-	file, err := os.OpenFile(
-		filepath.Join(am.accountDir, path.Join("/", account.Login+".yaml")),
-		os.O_CREATE|os.O_EXCL|os.O_WRONLY, 0644,
-	)
-	if err != nil {
-		return fmt.Errorf("create account file: %w", err)
+	// Return an error if an account file already exists.  (All writers hold am.mu, so check-then-write is safe.)
+	accountFile := filepath.Join(am.accountDir, path.Join("/", account.Login+".yaml"))
+	if _, err := os.Stat(accountFile); err == nil {
+		return fmt.Errorf("create account file: %w", os.ErrExist)
 	}
-	defer file.Close()
 
 	b, err := yaml.Marshal(account)
 	if err != nil {
 		return fmt.Errorf("marshal account to YAML: %v", err)
 	}
 
-	_, err = file.Write(b)
-	if err != nil {
+	if err := writeFileAtomic(accountFile, b); err != nil {
 		return fmt.Errorf("write account file: %w", err)
 	}
 
@@ -128,7 +136,7 @@ func (am *YAMLAccountManager) Update(account hotline.Account, newLogin string) e
 		return err
 	}
 
-	if err := os.WriteFile(filepath.Join(am.accountDir, path.Join("/", newLogin)+".yaml"), out, 0644); err != nil {
+	if err := writeFileAtomic(filepath.Join(am.accountDir, path.Join("/", newLogin)+".yaml"), out); err != nil {
 		return fmt.Errorf("error writing account file: %w", err)
 	}
 
